@@ -8,13 +8,35 @@
 #![allow(unused_imports, unused_variables, dead_code, non_snake_case)]
 use vstd::prelude::*;
 use vstd::std_specs::hash::*;
+use vstd::std_specs::iter::IteratorSpec;
 use std::collections::HashMap;
 use std::hash::{BuildHasher, Hash};
 use std::sync::Weak;
 verus! {
 
 // ---------------------------------------------------------------- interface stand-ins (declarations only)
-pub trait KvDatabase: 'static {}
+/// ghost: one logical store operation a batch hands to the serialization buffer (type-erased: the buffer is shared by all columns)
+#[verifier::external_body]
+pub struct Ev { _p: u8 }
+pub uninterp spec fn ev_put<C: WideColumn, V: WideColumnValue<C>>(k: C::Key, v: V) -> Ev;
+pub uninterp spec fn ev_del<C: WideColumn, V: WideColumnValue<C>>(k: C::Key) -> Ev;
+pub uninterp spec fn ev_ins<C: KeyOfSetColumn>(k: C::Key, e: C::Element) -> Ev;
+pub uninterp spec fn ev_rem<C: KeyOfSetColumn>(k: C::Key, e: C::Element) -> Ev;
+/// interface stand-in for kv_database::SerializationBuffer: an ordered ghost log of what was recorded
+pub trait SerializationBuffer {
+    spec fn log(&self) -> Seq<Ev>;
+    fn put<C: WideColumn, V: WideColumnValue<C>>(&mut self, key: &C::Key, value: &V)
+        ensures final(self).log() == old(self).log().push(ev_put::<C, V>(*key, *value));
+    fn delete<C: WideColumn, V: WideColumnValue<C>>(&mut self, key: &C::Key)
+        ensures final(self).log() == old(self).log().push(ev_del::<C, V>(*key));
+    fn insert_member<C: KeyOfSetColumn>(&mut self, key: &C::Key, value: &C::Element)
+        ensures final(self).log() == old(self).log().push(ev_ins::<C>(*key, *value));
+    fn delete_member<C: KeyOfSetColumn>(&mut self, key: &C::Key, value: &C::Element)
+        ensures final(self).log() == old(self).log().push(ev_rem::<C>(*key, *value));
+}
+pub trait KvDatabase: 'static { type SerializationBuffer: SerializationBuffer; }
+/// interface stand-in for the object-safe entry trait (after_commit / as_any_mut: not under contract)
+pub trait WriteEntry<Db: KvDatabase> { fn write_to_db(&self, tx: &mut Db::SerializationBuffer); }
 pub trait WideColumn: 'static { type Key: Hash + Eq + Clone + 'static; }
 pub trait WideColumnValue<C: WideColumn>: 'static {}
 pub trait KeyOfSetColumn: 'static { type Key: Hash + Eq + Clone + 'static; type Element: Hash + Eq + Clone + 'static; }
@@ -215,6 +237,188 @@ pub proof fn lemma_empty_carries<C: KeyOfSetColumn, Db: KvDatabase>(a: &TypedKey
         if a.writes@.contains_key(k) { assert(a.writes@.dom().len() > 0) by { vstd::set_lib::lemma_set_empty_equivalency_len(a.writes@.dom()); } }
     }
 }
+
+// ---------------------------------------------------------------- what the batch writes: one operation per staged slot
+/// the operation a staged wide-column slot turns into
+pub open spec fn wide_ev<C: WideColumn, V: WideColumnValue<C>>(k: C::Key, v: Option<V>) -> Ev {
+    match v { Some(x) => ev_put::<C, V>(k, x), None => ev_del::<C, V>(k) }
+}
+//@ impl crates/storage/src/write_manager/write_behind.rs :: impl<C: WideColumn, V: WideColumnValue<C>, Db: KvDatabase> WriteEntry<Db> for TypedWideColumnWrites<C, V, Db>
+//@ member write_to_db
+//@ sig
+        ensures
+            // exactly one operation per staged key, carrying the staged value (put) or the staged deletion; in SOME order of
+            // the keys (hash-map iteration order: immaterial, the keys are distinct)
+            exists|order: Seq<C::Key>| #![trigger order.no_duplicates()] order.no_duplicates()
+                && (forall|k: C::Key| order.contains(k) <==> self.writes@.contains_key(k))
+                && final(tx).log() =~= old(tx).log() + order.map_values(|k: C::Key| wide_ev::<C, V>(k, self.writes@[k])),
+//@ head
+        proof { axiom_key_types::<C::Key>(); }
+        broadcast use group_hash_axioms;
+        let ghost mut order: Seq<C::Key> = Seq::empty();
+//@ loop 0 iter __it
+//@ loop 0 itercall
+//@ loop 0 inv
+            invariant
+                obeys_key_model::<C::Key>(), builds_valid_hashers::<FxBuildHasher>(),
+                order.len() == __it.index@,
+                order =~= __it.snapshot@.remaining().take(__it.index@ as int).map_values(|kv: (&C::Key, &Option<V>)| *kv.0),
+                order.no_duplicates(),
+                forall|k: C::Key| order.contains(k) ==> self.writes@.contains_key(k),
+                tx.log() =~= old(tx).log() + order.map_values(|k: C::Key| wide_ev::<C, V>(k, self.writes@[k])),
+                __it.index@ == __it.snapshot@.remaining().len() ==> (forall|k: C::Key| self.writes@.contains_key(k) ==> order.contains(k)),
+//@ loop 0 head
+            let ghost order0 = order;
+            proof { order = order0.push(*key); }
+            proof {
+                let rem = __it.snapshot@.remaining();
+                let i = __it.index@ as int;
+                assert(*rem[i].0 == *key && *rem[i].1 == *value_opt);
+                assert(self.writes@.contains_key(*key) && self.writes@[*key] == *value_opt);
+                // the key was not produced before: pairs are distinct and a key determines its value
+                assert forall|j: int| 0 <= j < i implies order0[j] != *key by {
+                    assert(order0[j] == *rem.take(i)[j].0);
+                    if order0[j] == *key { assert(*rem[j].1 == self.writes@[*rem[j].0]); assert(rem[j] == rem[i]); }
+                }
+                assert(rem.take(i + 1) =~= rem.take(i).push(rem[i]));
+                assert(order.map_values(|k: C::Key| wide_ev::<C, V>(k, self.writes@[k]))
+                    =~= order0.map_values(|k: C::Key| wide_ev::<C, V>(k, self.writes@[k])).push(wide_ev::<C, V>(*key, *value_opt)));
+                assert forall|k: C::Key| i + 1 == rem.len() && self.writes@.contains_key(k) implies order.contains(k) by {
+                    assert(rem.take(i + 1) =~= rem);
+                    let w = choose|w: int| 0 <= w < rem.len() && *(#[trigger] rem[w]).0 == k;
+                    assert(order[w] == k);
+                }
+            }
+//@ end
+
+
+/// the operation a staged key-of-set slot turns into
+pub open spec fn set_ev<C: KeyOfSetColumn>(k: C::Key, e: C::Element, op: Operation) -> Ev {
+    match op { Operation::Insert => ev_ins::<C>(k, e), Operation::Remove => ev_rem::<C>(k, e) }
+}
+impl<C: KeyOfSetColumn, Db: KvDatabase> TypedKeyOfSetWrites<C, Db> {
+    pub open spec fn slot_ev(&self, p: (C::Key, C::Element)) -> Ev { set_ev::<C>(p.0, p.1, self.writes@[p.0]@[p.1]) }
+}
+//@ impl crates/storage/src/write_manager/write_behind.rs :: impl<C: KeyOfSetColumn, Db: KvDatabase> WriteEntry<Db> for TypedKeyOfSetWrites<C, Db>
+//@ member write_to_db
+//@ sig
+        ensures
+            // exactly one operation per staged (key, element) slot, insert_member or delete_member as staged, in some order
+            exists|order: Seq<(C::Key, C::Element)>| #![trigger order.no_duplicates()] order.no_duplicates()
+                && (forall|k: C::Key, e: C::Element| order.contains((k, e)) <==> self.net(k, e) is Some)
+                && final(tx).log() =~= old(tx).log() + order.map_values(|p: (C::Key, C::Element)| self.slot_ev(p)),
+//@ head
+        proof { axiom_key_types::<C::Key>(); axiom_key_types::<C::Element>(); }
+        broadcast use group_hash_axioms;
+        let ghost mut order: Seq<(C::Key, C::Element)> = Seq::empty();
+        let ghost mut keys_done: Seq<C::Key> = Seq::empty();
+//@ loop 0 iter __it
+//@ loop 0 itercall
+//@ loop 0 inv
+            invariant
+                obeys_key_model::<C::Key>(), obeys_key_model::<C::Element>(), builds_valid_hashers::<FxBuildHasher>(),
+                keys_done.len() == __it.index@,
+                keys_done =~= __it.snapshot@.remaining().take(__it.index@ as int).map_values(|kv: (&C::Key, &HashMap<C::Element, Operation>)| *kv.0),
+                keys_done.no_duplicates(),
+                order.no_duplicates(),
+                forall|k: C::Key, e: C::Element| #[trigger] order.contains((k, e)) <==> (keys_done.contains(k) && self.net(k, e) is Some),
+                tx.log() =~= old(tx).log() + order.map_values(|p: (C::Key, C::Element)| self.slot_ev(p)),
+                __it.index@ == __it.snapshot@.remaining().len() ==> (forall|k: C::Key| self.writes@.contains_key(k) ==> keys_done.contains(k)),
+//@ loop 0 head
+            let ghost order_out = order;
+            let ghost keys0 = keys_done;
+            let ghost mut inner: Seq<C::Element> = Seq::empty();
+            proof { keys_done = keys0.push(*key); }
+            proof {
+                let rem = __it.snapshot@.remaining();
+                let i = __it.index@ as int;
+                assert(*rem[i].0 == *key && *rem[i].1 == *element_map);
+                assert(self.writes@.contains_key(*key) && self.writes@[*key] == *element_map);
+                assert forall|j: int| 0 <= j < i implies keys0[j] != *key by {
+                    assert(keys0[j] == *rem.take(i)[j].0);
+                    if keys0[j] == *key { assert(*rem[j].1 == self.writes@[*rem[j].0]); assert(rem[j] == rem[i]); }
+                }
+                assert(rem.take(i + 1) =~= rem.take(i).push(rem[i]));
+                assert forall|k: C::Key| i + 1 == rem.len() && self.writes@.contains_key(k) implies keys_done.contains(k) by {
+                    assert(rem.take(i + 1) =~= rem);
+                    let w = choose|w: int| 0 <= w < rem.len() && *(#[trigger] rem[w]).0 == k;
+                    assert(keys_done[w] == k);
+                }
+            }
+//@ loop 1 iter __it2
+//@ loop 1 itercall
+//@ loop 1 inv
+                invariant
+                    obeys_key_model::<C::Key>(), obeys_key_model::<C::Element>(), builds_valid_hashers::<FxBuildHasher>(),
+                    self.writes@.contains_key(*key), self.writes@[*key] == *element_map,
+                    !keys0.contains(*key), keys_done == keys0.push(*key), keys0.no_duplicates(),
+                    order_out.no_duplicates(),
+                    forall|k: C::Key, e: C::Element| #[trigger] order_out.contains((k, e)) <==> (keys0.contains(k) && self.net(k, e) is Some),
+                    inner.len() == __it2.index@,
+                    inner =~= __it2.snapshot@.remaining().take(__it2.index@ as int).map_values(|kv: (&C::Element, &Operation)| *kv.0),
+                    inner.no_duplicates(),
+                    forall|e: C::Element| inner.contains(e) ==> element_map@.contains_key(e),
+                    order =~= order_out + inner.map_values(|e: C::Element| (*key, e)),
+                    tx.log() =~= old(tx).log() + order.map_values(|p: (C::Key, C::Element)| self.slot_ev(p)),
+                    __it2.index@ == __it2.snapshot@.remaining().len() ==> (forall|e: C::Element| element_map@.contains_key(e) ==> inner.contains(e)),
+//@ loop 1 head
+                let ghost order1 = order;
+                let ghost inner0 = inner;
+                proof { inner = inner0.push(*element); order = order1.push((*key, *element)); }
+                proof {
+                    let rem2 = __it2.snapshot@.remaining();
+                    let i2 = __it2.index@ as int;
+                    assert(*rem2[i2].0 == *element && *rem2[i2].1 == *op);
+                    assert(element_map@.contains_key(*element) && element_map@[*element] == *op);
+                    assert forall|j: int| 0 <= j < i2 implies inner0[j] != *element by {
+                        assert(inner0[j] == *rem2.take(i2)[j].0);
+                        if inner0[j] == *element { assert(*rem2[j].1 == element_map@[*rem2[j].0]); assert(rem2[j] == rem2[i2]); }
+                    }
+                    assert(rem2.take(i2 + 1) =~= rem2.take(i2).push(rem2[i2]));
+                    assert(inner.map_values(|e: C::Element| (*key, e)) =~= inner0.map_values(|e: C::Element| (*key, e)).push((*key, *element)));
+                    assert(order.map_values(|p: (C::Key, C::Element)| self.slot_ev(p))
+                        =~= order1.map_values(|p: (C::Key, C::Element)| self.slot_ev(p)).push(set_ev::<C>(*key, *element, *op)));
+                    assert forall|e: C::Element| i2 + 1 == rem2.len() && element_map@.contains_key(e) implies inner.contains(e) by {
+                        assert(rem2.take(i2 + 1) =~= rem2);
+                        let w = choose|w: int| 0 <= w < rem2.len() && *(#[trigger] rem2[w]).0 == e;
+                        assert(inner[w] == e);
+                    }
+                }
+//@ loop 1 after
+            proof {
+                // order = order_out ++ (key, e) for every element e of key's map: still duplicate free, and complete for keys_done
+                let tailp = inner.map_values(|e: C::Element| (*key, e));
+                assert forall|a: int, b: int| 0 <= a < order.len() && 0 <= b < order.len() && a != b implies order[a] != order[b] by {
+                    let n0 = order_out.len() as int;
+                    if a >= n0 && b >= n0 { assert(inner[a - n0] != inner[b - n0]); }
+                    else if a < n0 && b >= n0 { assert(order_out.contains(order_out[a])); }
+                    else if a >= n0 && b < n0 { assert(order_out.contains(order_out[b])); }
+                }
+                assert forall|k: C::Key, e: C::Element| #[trigger] order.contains((k, e)) <==> (keys_done.contains(k) && self.net(k, e) is Some) by {
+                    if order.contains((k, e)) {
+                        let a = choose|a: int| 0 <= a < order.len() && order[a] == (k, e);
+                        if a < order_out.len() { assert(order_out.contains((k, e))); assert(keys_done[keys0.index_of(k)] == k); }
+                        else { assert(inner.contains(inner[a - order_out.len()])); assert(keys_done[keys0.len() as int] == *key); }
+                    }
+                    if keys_done.contains(k) && self.net(k, e) is Some {
+                        if k == *key {
+                            assert(element_map@.contains_key(e));
+                            assert(inner.contains(e));
+                            let w = inner.index_of(e);
+                            assert(0 <= w < inner.len() && inner[w] == e);
+                            assert(tailp[w] == (*key, e));
+                            assert(order[order_out.len() + w] == (k, e));
+                        } else {
+                            let a = choose|a: int| 0 <= a < keys_done.len() && keys_done[a] == k;
+                            assert(keys0[a] == k);
+                            assert(order_out.contains((k, e)));
+                            let b = order_out.index_of((k, e));
+                            assert(order[b] == (k, e));
+                        }
+                    }
+                }
+            }
+//@ end
 
 // ---------------------------------------------------------------- vacuity guards (must FAIL)
 /// if the Entry model were contradictory this would verify
